@@ -135,6 +135,8 @@ func binFor(root, build string) string {
 		return filepath.Join(root, "bin", "vmon-purego")
 	case "race":
 		return filepath.Join(root, "bin", "vmon-race")
+	case "386":
+		return filepath.Join(root, "bin", "vmon-386")
 	}
 	return filepath.Join(root, "bin", "vmon")
 }
